@@ -25,6 +25,8 @@ def build_problem(ps):
     if kind == "boxdomain":
         _, _, n, m, kw = ps
         return gen.boxdomain_problem(rng, n, m, **kw)
+    if kind == "degenerate":
+        return gen.degenerate_problem(rng, ps[2])
     if kind == "saddle":
         return gen.saddle_problem(rng, ps[2], ps[3])
     if kind == "simplex":
